@@ -172,7 +172,7 @@ def generate(rng, index, tier):
             hist.append({'op': 'request', 'dump': di, 'what': 'kevents', 'repeat': False})
     if not any(h['op'] == 'request' and h['what'] != 'kevents' for h in hist):
         hist.append({'op': 'request', 'dump': 0, 'what': 'traces', 'repeat': True})
-    return {'dumps': dumps, 'history': hist}
+    return {'dumps': dumps, 'history': hist, 'earlier_other': rng.chance(0.12)}
 
 
 def valid(scn):
@@ -267,6 +267,11 @@ def execute(scn):
                 exc = e
             refs[di] = (out, exc)
         return refs[di]
+    if scn.get('earlier_other'):
+        for di_, d_ in enumerate(scn['dumps']):
+            common.pollute_other_objects(tables[di_], worlds.dump_bytes(d_)[1], files[di_])
+        bump('fault:residue')
+        bump('earlier_other_objects')
     p = tool.pk_mod.PyKdebugParser()
     cur = {}
     viols = []
